@@ -202,6 +202,13 @@ def fam_face_holes(ctx, rng, base, loop, z):
                           'boundary of the holed face: result %d vertices, base %d (plane %s)' % (len(bres), len(base), pmode), desc); return
         if not cyclic_equal([tuple(p) for p in r.boundary], [tuple(p) for p in r2.boundary]):
             ctx.violation(kind + ':boundary_not_idempotent', 'second application changes the boundary', desc); return
+        # orientation unchanged: same normal, never clockwise, and the stored boundary still winds about the normal
+        if r.is_clockwise or r.normal.dot(face.normal) < 0.999999:
+            ctx.violation(kind + ':orientation', 'the cleaned face is clockwise / has another normal (is_clockwise %r, normal %r vs %r; plane %s)' % (
+                r.is_clockwise, r.normal, face.normal, pmode), desc); return
+        nw = X.newell([X.fpt(p) for p in r.boundary])
+        if X.dot(nw, X.fpt(r.normal)) <= 0:
+            ctx.violation(kind + ':orientation:boundary', 'the boundary of the cleaned face winds against its normal (plane %s)' % pmode, desc); return
         for hb, hl, stored, got in zip(hbases, hloops, face.holes, r.holes):
             res = [(p.x, p.y) for p in got]
             st = [(p.x, p.y) for p in stored]
@@ -264,17 +271,39 @@ def fam_polyline(ctx, rng):
 def fam_jitter(ctx, rng):
     """redundant points jittered by < tol/10: still removed, genuine corners kept, idempotent"""
     base = base_shape(rng)
-    loop = decorate(rng, base, jitter=TOL / 20)
+    jit = rng.choice([TOL / 20, TOL / 12])
+    loop = decorate(rng, base, jitter=jit)
+    if rng.random() < 0.6:
+        # an inserted point very close to one end of its edge (1/32 of the way), so that its two neighbours are at very different distances
+        out = []
+        for i, p in enumerate(loop):
+            out.append(p)
+            if p in base and rng.random() < 0.5:
+                nb = base[(base.index(p) + 1) % len(base)]
+                nxt = loop[(i + 1) % len(loop)]
+                if nxt != p:
+                    t = rng.choice([1 / 32.0, 1 / 16.0])
+                    # towards the next base corner, jittered
+                    out.append((p[0] + (nb[0] - p[0]) * t + rng.uniform(-jit, jit) * 0.7, p[1] + (nb[1] - p[1]) * t + rng.uniform(-jit, jit) * 0.7))
+        loop = out
     k = rng.randrange(len(loop))
     loop = loop[k:] + loop[:k]
     poly = Polygon2D([P2(p) for p in loop])
     r1 = poly.remove_colinear_vertices(TOL)
     res = [tuple(p) for p in r1.vertices]
-    desc = {'class': 'Polygon2D', 'loop': loop, 'base': base, 'jitter': TOL / 20}
+    desc = {'class': 'Polygon2D', 'loop': loop, 'base': base, 'jitter': jit}
     ctx.count('clean.jitter', key=(len(base), len(loop)), sample=desc)
     kind = 'Polygon2D.remove_colinear_vertices:jitter'
     if not all(p in res for p in base):
         ctx.violation(kind + ':corner_removed', 'a genuine corner was removed', desc); return
+    # the inserted points are within tol/10 of their edge, i.e. well within the tolerance of the chord of their neighbours: all removed,
+    # for either orientation of the loop
+    extra = [p for p in res if p not in base]
+    if extra:
+        ctx.violation(kind + ':redundant_kept', 'a point inserted within tol/20 of an edge survives: %r' % (extra[:2],), desc); return
+    rr = [tuple(p) for p in Polygon2D([P2(p) for p in loop[::-1]]).remove_colinear_vertices(TOL).vertices]
+    if [p for p in rr if p not in base]:
+        ctx.violation(kind + ':redundant_kept:reversed', 'given in the opposite order, a point inserted within tol/20 of an edge survives', desc); return
     if not cyclic_equal([tuple(p) for p in r1.remove_colinear_vertices(TOL).vertices], res):
         ctx.violation(kind + ':not_idempotent', 'second application changes the result', desc); return
     if abs(r1.area - poly.area) > TOL * poly.perimeter:
